@@ -185,6 +185,10 @@ def plan(tier, seed, rng):
             ops = [0, 1, 2, 3, 4] if t != "l" else [0, 1, 2, 4]
             return acase("f2", t, 0, f, ops, 1, pd, daxes, saxes)
         uniq(rc_cases, mk)
+    # ---- b: Tensor<bool> destinations, noalias() = logical / comparison expression over overlapping slices of the same tensor
+    for (M, N, R) in [(1, 9, 1), (1, 17, 1), (3, 5, 2), (4, 9, 2), (5, 17, 2), (8, 8, 2)]:
+        cid = "al/b/bool/%s" % ("%d" % N if R == 1 else "%dx%d" % (M, N))
+        add(rc_cases, Case(cid, 'VF_CASE("%s", c18::boolalias<%d,%d,%d>)' % (cid, M, N, R), dict(type="bool", parent=[M, N], rank=R), size=M * N))
     # ---- m: mixed lists (run-time integers / all / seq) on the destination, dynamic sources of the same kinds
     deckm = Deck([F_VIEW, F_AFFINE, F_PROD, F_SELF, F_REUSE])
     two = [("A", "s"), ("s", "A"), ("s", "i"), ("i", "s"), ("A", "i"), ("i", "A")]
